@@ -108,6 +108,15 @@ Proof.
   exists s. unfold str_of_nonneg. rewrite Hs. repeat split; assumption.
 Qed.
 
+Lemma str_of_nonneg_length n k : 0 <= n < 10 ^ Z.of_nat k -> (1 <= k)%nat ->
+  (1 <= length (str_of_nonneg n) <= k)%nat /\ Forall (fun c => In c digits10) (str_of_nonneg n).
+Proof.
+  intros Hn Hk.
+  destruct (to_base_n_spec digits10 10 n digits10_nodup) as [s [Hs [Hv [Hl [Hlen Hall]]]]];
+    [change (zlen digits10) with 10; lia | lia|].
+  unfold str_of_nonneg. rewrite Hs. split; [split; [exact Hl|apply Hlen; [exact Hk|lia]]|exact Hall].
+Qed.
+
 Lemma int_digits_val s : Forall (fun c => In c digits10) s ->
   forall v acc prev, val digits10 10 s = Some v -> (s <> [] \/ prev = true) ->
   int_digits s acc prev = Some (acc * 10 ^ zlen s + v).
